@@ -14,7 +14,7 @@ INFO = {
                    'for EVERY file text the lowered record-assembly path of the JS reader (bulk mode: split_lines -> process_line -> record aggregation -> get_warnings) yields the records, '
                    'warnings and IO error of the Python CSVRecordIterator; tables written by either side\'s quoting kernel are read back identically by the other side.',
     'bounds': 'lines of length <= 4 (quick) / <= 6 (thorough); file texts of total length <= 4 / 5; delimiters , ; TAB SPACE |; all five policies; comment prefix on/off',
-    'outside': 'astral (non-BMP) characters and lone surrogates (UTF-16 code units differ from code points); async reader plumbing (streams, promises, queue); file and CLI level agreement; header inference kernels unless listed in evidence',
+    'outside': 'astral (non-BMP) characters and lone surrogates (UTF-16 code units differ from code points); async reader plumbing (streams, promises, queue); file and CLI level agreement; select lists outside the enumerated common-syntax family',
     'assumptions': ['the ESTree->Python lowering preserves JS semantics for the subset used (validated per run against real node on ~8000 concrete calls; every counterexample is replayed in real node)',
                     'node String/RegExp semantics as re-implemented in vf/jslower/jsrt.py'],
     'trusted': ['crosshair-tool 0.0.110', 'z3', 'node 20 + acorn (parsing only)', 'vf/jslower (translator + JS runtime shim)'],
@@ -39,12 +39,12 @@ def node_check(*ns):
         return (True, 'no node replay defined for this obligation kind')
     s = ''.join(chr(int(n)) for n in ns)
     if kind == 'split':
-        r = _jsb.node_calls('/repo/rbql-js/csv_utils.js', [['smart_split', s, DLM, POLICY, PRESERVE]])[0]
+        r = _jsb.node_calls(_jsb.JS + '/csv_utils.js', [['smart_split', s, DLM, POLICY, PRESERVE]])[0]
         py = csv_utils.smart_split(s, DLM, POLICY, PRESERVE)
         return ('ok' not in r or norm(r['ok']) != norm(py), {'node': repr(r)[:300], 'python': repr(py)[:300]})
     if kind in ('quote_field', 'rfc_quote_field', 'unquote_field'):
         call = [kind, s] + ([] if kind == 'unquote_field' else [DLM])
-        r = _jsb.node_calls('/repo/rbql-js/csv_utils.js', [call])[0]
+        r = _jsb.node_calls(_jsb.JS + '/csv_utils.js', [call])[0]
         py = getattr(csv_utils, kind)(*call[1:])
         return ('ok' not in r or r['ok'] != py, {'node': repr(r)[:300], 'python': repr(py)[:300]})
     return (True, 'not replayed in node')
@@ -155,6 +155,60 @@ return (js_res, py)
                meta={'function': 'rbql_csv.js CSVRecordIterator (bulk path, lowered) vs rbql_csv.py CSVRecordIterator', 'bounds': 'every BMP file text of length %d' % sum(lens)})
 
 
+HDR_PRELUDE = PRELUDE + '''
+jsr = _jsb._load('js_rbql', _jsb.path_of('js_rbql'))
+
+
+def js_header(sel, ha, hb):
+    fmt, lits = jsr.separate_string_literals(sel)
+    _t, for_header = jsr.translate_select_expression(fmt)
+    infos = jsr.adhoc_parse_select_expression_to_column_infos(for_header, lits)
+    try:
+        return jsr.select_output_header(ha, hb, infos)
+    except jsr.RbqlParsingError:
+        return 'RbqlParsingError'
+
+
+def py_header(sel, ha, hb):
+    fmt, lits = rbql_engine.separate_string_literals(sel)
+    _t, for_ast = rbql_engine.translate_select_expression(fmt)
+    infos = rbql_engine.ast_parse_select_expression_to_column_infos(rbql_engine.combine_string_literals(for_ast, lits))
+    try:
+        return rbql_engine.select_output_header(ha, hb, infos)
+    except rbql_engine.RbqlParsingError:
+        return 'RbqlParsingError'
+'''
+
+# select lists in syntax common to Python and JavaScript (concrete; the header NAMES are symbolic)
+SELECT_LISTS = ['a1, a2', 'a2, NR, a1', '*', 'a.*, b.*', 'b.*, a1', 'a1 as x, a2', 'a1 + a2, a3 AS total', 'NR, NF, a4', 'a[1], a[2]', 'a["n"], b["m"]', "a['n'] as q, *",
+                'a.n, b.m, a.n', 'f(a1, a2), a3', '[a1, a2][0], a1', 'a1 , a2 ', ' *, a1', 'a1,*,b2', 'b1, b[2]', 'a1 as a2, a2', '"lit", a1', "'x,y' as s, a1",
+                'a1 == a2, a1', 'a.n as m, a.*', 'a["x y"]', '-a1', 'a1 as X1', 'NR as nr', '*, *', 'a1 as x ,a2', 'COUNT(*), a1', 'count( * ) as c', 'a1, a2, a3, b1, b2, b3', 'a7, b9 as z']
+# spellings on which the text-span based JS inference is known to fall back to colK where the ast based Python inference names the column (finding F9)
+F9_LISTS = ['(a1), a2', 'a[ 1 ]', 'a .n']
+
+
+def _header_obl(sel, with_header, timeout, expect='hold', finding=None):
+    if with_header:
+        params = [('h0', 'str'), ('h2', 'str'), ('g1', 'str')]
+        pre = ['len(h0) <= 2', 'len(h2) <= 2', 'len(g1) <= 2']
+        hexpr = "[h0, 'n', h2, 'x y']"
+        gexpr = "['m', g1]"
+    else:
+        params = [('dummy', 'int')]
+        pre = ['dummy == 0']
+        hexpr = gexpr = 'None'
+    body = indent('''
+ha = %s
+hb = %s
+return (js_header(SEL, ha, hb), py_header(SEL, ha, hb))
+''' % (hexpr, gexpr))
+    src = harness('NODE_KIND = None\nSEL = %r\n' % sel, params, pre, body, extra_defs=HDR_PRELUDE)
+    o = Obl('js_vs_py_header[%s|hdr=%d]' % (sel, with_header), src, timeout=timeout, expect=expect, finding=finding,
+            meta={'function': 'rbql.js adhoc_parse_select_expression_to_column_infos + select_output_header (lowered) vs rbql_engine.py ast_parse_... + select_output_header',
+                  'select_list': sel, 'bounds': 'input header [h0, "n", h2, "x y"], join header ["m", g1] with h0, h2, g1 any strings of length <= 2' if with_header else 'no headers'})
+    return o
+
+
 def obligations(tier, seed):
     obs = []
     quick = tier == 'quick'
@@ -176,6 +230,15 @@ def obligations(tier, seed):
         for dlm, policy in ((',', 'quoted'), (';', 'quoted_rfc'), (' ', 'quoted')):
             for lens in ([(2,), (1, 1), (0, 2)] if quick else [(2,), (3,), (1, 1), (0, 2), (2, 1), (1, 2), (1, 1, 1), (2, 2)]):
                 obs.append(_cross_roundtrip_obl(writer, dlm, policy, lens, t))
+    for i, sel in enumerate(SELECT_LISTS):
+        for wh in (True, False):
+            if quick and not wh and (i + seed) % 3:
+                continue
+            obs.append(_header_obl(sel, wh, 120 if quick else 600))
+    for sel in F9_LISTS:
+        o = _header_obl(sel, True, 120, expect='known', finding='F9')
+        o.twin = None
+        obs.append(o)
     from vf.jslower import build
     if build.HAVE_READER:
         rcfgs = [(',', 'quoted', None, None), (',', 'quoted_rfc', '#', None), ('\t', 'simple', None, 'utf-8'), (' ', 'whitespace', '#', None), (',', 'quoted', '#', 'latin-1'), ('', 'monocolumn', None, 'utf-8')]
